@@ -14,7 +14,12 @@ void harness(void) {
 	ND_ARR(unsigned char, init, 4);
 	ND_ARR(URI_CHAR, head, 16);       /* the first 16 characters (all the function can look at): named input, replayable */
 	__CPROVER_assume(n <= V_NMAX && null_out <= 1);
+#ifdef V_CONSTBLOCK   /* W pass: a block of symbolic size does not fit into memory; one branch per size, each with a constant size */
+	text = NULL;
+	for (i = 0; i <= V_NMAX; i++) if ((size_t)i == n) text = malloc((i ? i : 1) * sizeof(URI_CHAR));
+#else
 	text = malloc((n ? n : 1) * sizeof(URI_CHAR));
+#endif
 	__CPROVER_assume(text != NULL);
 	for (i = 0; i < 4; i++) { got[i] = init[i]; want[i] = 0; }
 	for (i = 0; i < 16; i++) if ((size_t)i < n) text[i] = head[i];
